@@ -1,4 +1,4 @@
-//go:build verif && verifhook_h1
+//go:build verif
 
 // Crash images BETWEEN the file-system steps of one Flush (DESIGN §5, hook H1). Needs
 // consensus/walstore/verif_on.go + the verifPoint calls of hook_H1.diff in /repo. Until that patch
